@@ -302,6 +302,8 @@ PREFIXES = {
     # next to the request's ID the two ID spaces hold the same number, and the end of the server's own exchange must not touch
     # what it remembers about the peer's request
     "sep-acked": (("copy", 0), ("timer",), ("timer",), ("acksep",)),
+    # "no matter how often": the request and seven copies of it, some of them late in the lifetime
+    "many-copies": (("copy", 0),) * 6 + (("jump", "mid"), ("copy", 0), ("copy", 0)),
 }
 
 
@@ -373,7 +375,7 @@ def run(tier, seed, jobs):
     for kind in ("fast", "slow") if tier == "quick" else KINDS:
         for con in (True, False):
             for pname in PREFIXES:
-                if pname == "sep-acked":
+                if pname == "sep-acked" or (pname == "many-copies" and not con):
                     continue
                 work.append((kind, con, 0x7000, (3 if pname == "two-servers" else 2) if tier == "quick" else (4 if pname == "two-servers" else 3), pname))
     return core.prun(job, work, jobs)
